@@ -192,6 +192,11 @@ def tasks(tier):
         for c1, c2 in itertools.combinations_with_replacement(KEY_CLASSES, 2):
             ts.append(('contracts.c02', 'alias_free', (kind, c1, c2)))
         ts.append(('contracts.c02', 'queue_keys_decode', (kind,)))
+    # "iteration returns the keys that were stored", each once: the iteration contracts of C03 (insertion order
+    # and sorted order, both directions; two rows may share a database key and differ in `raw` only)
+    ts += [('contracts.iteration', 'iter_task', ('C02', True)), ('contracts.iteration', 'iter_task', ('C02', False)),
+           ('contracts.iteration', 'iterkeys_task', ('C02', False)), ('contracts.iteration', 'iterkeys_task', ('C02', True)),
+           ('contracts.iteration', 'dbval_order_lemma', ('C02',))]
     return ts
 
 
